@@ -14,6 +14,7 @@ mod fam_liq;
 mod fam_oracle;
 mod fam_health;
 mod fam_tx;
+mod fam_xfer;
 mod fam_gate;
 mod fam_integr;
 mod fam_panic;
@@ -81,6 +82,7 @@ fn main() {
                 "fees" => fam_fees::gen(&mut rng, n, &mut out),
                 "tx" => fam_tx::gen(&mut rng, n, &mut out),
                 "bkr" => fam_bkr::gen(&mut rng, n, &mut out),
+                "xfer" => fam_xfer::gen(&mut rng, n, &mut out),
                 "liq" => fam_liq::gen(&mut rng, n, &mut out),
                 "oracle" => fam_oracle::gen(&mut rng, n, &mut out),
                 "health" => fam_health::gen(&mut rng, n, &mut out),
@@ -120,6 +122,7 @@ fn main() {
                 "LIQ" => mon_c05::run(&mut rng, n, &mut rep),
                 "TXS" => fam_tx::monitor(&mut rng, n, &mut rep),
                 "BKR" => fam_bkr::monitor(&mut rng, n, &mut rep),
+                "XFER" => fam_xfer::monitor(&mut rng, n, &mut rep),
                 "ORA" => fam_oracle::monitor(&mut rng, n, &mut rep),
                 "C12" => mon_c12::run(&mut rng, n, &mut rep),
                 "C13" => mon_c13::run(&mut rng, n, &mut rep),
